@@ -285,6 +285,36 @@ pub fn run(tier: Tier) -> i32 {
         }
     }
 
+    // ---- counts outside the count type, written as numbers and as strings: rejected, never wrapped into the type
+    {
+        let mut n_out = 0u64;
+        for ty in [NumTy::I8, NumTy::U8, NumTy::I16, NumTy::U16, NumTy::I32, NumTy::U32, NumTy::I64] {
+            let (lo, hi) = ty.min_max();
+            let mut outs: Vec<CountSpec> = vec![];
+            for v in [hi + 1, hi + 45, 2 * hi + 1, 2 * (hi + 1)] {
+                if v <= u64::MAX as i128 && !(v > i64::MAX as i128 && build_format() == Format::Json5) {
+                    outs.push(CountSpec::UInt(v as u64));
+                }
+                outs.push(CountSpec::Str(v.to_string()));
+            }
+            for v in [lo - 1, lo - 45] {
+                if v >= i64::MIN as i128 {
+                    outs.push(CountSpec::Int(v as i64));
+                }
+                outs.push(CountSpec::Str(v.to_string()));
+            }
+            let mut decls = vec![];
+            for (i, o) in outs.iter().enumerate() {
+                decls.push(decl(Some(ty), &format!("{}out{i}", ty.name()), &[vec![o.clone()]], Fb::Implicit, i % 4));
+                decls.push(decl(Some(ty), &format!("{}out{i}b", ty.name()), &[vec![num_spec(ty, 0)], vec![o.clone(), num_spec(ty, 1)]], Fb::Underscore, i % 8));
+                n_out += 2;
+            }
+            let counts: Vec<Num> = vec![Num::I(0), Num::I(1), Num::I((-1i128).max(lo))];
+            pack(Some(ty), decls, &counts, &counts, "out-of-type", &mut jobs, &mut singles);
+        }
+        rep.count("out_of_type_declarations", n_out);
+    }
+
     // ---- branches that carry the SAME value (text): which branch a count takes is decided by the declaration, not by
     // what the branches say - identical values are not a reason to look at a later branch first
     for ty in [NumTy::I8, NumTy::U8] {
@@ -516,7 +546,7 @@ pub fn run(tier: Tier) -> i32 {
         rep.sample(json!({"single": p.describe()}));
     }
     let mut cov = serde_json::Map::new();
-    cov.insert("rule".into(), json!("i8/u8: every 1-branch declaration over the spec alphabet (exact number/string, a..b, a..=b, ..b, ..=b, a.., alternatives with |, list alternatives, whitespace) x 4 fallback forms x 3 syntaxes, every ordered 2-branch pair (thorough: 3-branch over a reduced alphabet); each accepted declaration is (1) evaluated from the parsed Range<T> structures for ALL 256 counts, (2) selected at parse time through one `$t(r,{count:n})` key per covered count (all 256 for 1-branch, boundary neighbourhood for 2/3-branch), (3) `{{ count }}` shown; wider ints (+implicit i32) and floats: same alphabets, counts = every value within +-2 (next_up/next_down for floats) of a bound plus type extremes; declarations with the fallback before the last branch or written twice (implicit and `_` forms, 4 types); 3-branch declarations over a reduced alphabet in which two branches (adjacent or not) carry the same value; three- and four-level reference chains over a range (u8, implicit i32, f32, i64) in which the middle key renames the count to `n` and has a plain variable of its own called `count`, and the outer keys pass `count` / `n` / both as literals, text or other variables (only the variable of that name is replaced; the range keeps following its renamed count); declarations the model rejects / leaves open and literal counts no branch contains are judged alone (must be Err, never panic); evaluations = (declaration, count) pairs + single projects; distinct_nontrivial = distinct declarations"));
+    cov.insert("rule".into(), json!("i8/u8: every 1-branch declaration over the spec alphabet (exact number/string, a..b, a..=b, ..b, ..=b, a.., alternatives with |, list alternatives, whitespace) x 4 fallback forms x 3 syntaxes, every ordered 2-branch pair (thorough: 3-branch over a reduced alphabet); each accepted declaration is (1) evaluated from the parsed Range<T> structures for ALL 256 counts, (2) selected at parse time through one `$t(r,{count:n})` key per covered count (all 256 for 1-branch, boundary neighbourhood for 2/3-branch), (3) `{{ count }}` shown; wider ints (+implicit i32) and floats: same alphabets, counts = every value within +-2 (next_up/next_down for floats) of a bound plus type extremes; declarations with the fallback before the last branch or written twice (implicit and `_` forms, 4 types); declarations with a count just outside the count type (hi+1, hi+45, 2hi+1, 2(hi+1), lo-1, lo-45; as JSON numbers and as strings; alone and inside a list) which must be rejected; 3-branch declarations over a reduced alphabet in which two branches (adjacent or not) carry the same value; three- and four-level reference chains over a range (u8, implicit i32, f32, i64) in which the middle key renames the count to `n` and has a plain variable of its own called `count`, and the outer keys pass `count` / `n` / both as literals, text or other variables (only the variable of that name is replaced; the range keeps following its renamed count); declarations the model rejects / leaves open and literal counts no branch contains are judged alone (must be Err, never panic); evaluations = (declaration, count) pairs + single projects; distinct_nontrivial = distinct declarations"));
     cov.insert("exhaustive".into(), json!(true));
     cov.insert("key_locale_comparisons".into(), json!(*keys_total.lock().unwrap()));
     rep.finish(cov, &["Rust's str::parse::<T> and PartialOrd define what bounds mean", "empty or inverted ranges and fallbacks hidden inside count lists may be rejected or accepted (statement silent)"])
